@@ -446,11 +446,11 @@ example : ∃ (m : Mgr) (u : Int), Inv m ∧ m.lastLen = none ∧ VarsBij m.tbl 
   · have := hd (fun _ => true); rw [den_neg_one] at this; cases this
 
 /-- non-vacuity: a table with one variable and one node; a tree of the image of `to_expr` -/
-def exTbl : Tbl :=
+def exTblC05 : Tbl :=
   { succ := ({} : TreeMap Nat Nd).insert 2 ⟨0, -1, 1⟩,
     vars := ({} : TreeMap String Nat).insert "a" 0,
     l2v := ({} : TreeMap Nat String).insert 0 "a" }
-example : (match toExprAstF 3 exTbl (-2) with | .ok a => a == .not (.var "a") | _ => false) = true := by
+example : (match toExprAstF 3 exTblC05 (-2) with | .ok a => a == .not (.var "a") | _ => false) = true := by
   decide
 def exTe : Ast := .not (.ite (.var "a") (.bool true) (.not (.var "b'")))
 example : TE exTe :=
